@@ -647,6 +647,42 @@ func (e *Env) call(n *CNode) Val {
 		fn := "|setOf!" + sanitize(es) + "|"
 		g.declareFun(fn, "(Slice (Array Int "+es+")) (Array "+es+" Bool)")
 		return Val{t: fmt.Sprintf("(%s %s (select %s (sarr %s)))", fn, v.t, g.get(e.state, k), v.t), gk: "set", ge: st.Elem(), gs: "(Array " + es + " Bool)"}
+	case "atomicGet":
+		// atomicGet(x.f): ghost value of the atomic box stored by value in field f of *x
+		if len(n.Args) != 1 || n.Args[0].Kind != "field" {
+			cxFail("atomicGet needs a field expression")
+		}
+		base := e.expr(n.Args[0].Args[0])
+		T := base.ty
+		if p, ok := T.Underlying().(*types.Pointer); ok {
+			T = p.Elem()
+		}
+		st := T.Underlying().(*types.Struct)
+		for i := 0; i < st.NumFields(); i++ {
+			if st.Field(i).Name() == n.Args[0].Name {
+				g.regKey("G|$atomicInt", "(Array Int Int)", "umap")
+				return Val{t: fmt.Sprintf("(select %s %s)", g.get(e.state, "G|$atomicInt"), e.fc.interiorTerm(base.t, T, i)), ty: tMath}
+			}
+		}
+		cxFail("atomicGet: no such field")
+	case "cmHas", "cmGet":
+		// ghost content of a *typeutil.ConcurrentMap[K,V] (pointer-typed): cmHas(m, k), cmGet(m, k)
+		mv := e.expr(n.Args[0])
+		pt, ok := mv.ty.Underlying().(*types.Pointer)
+		if !ok {
+			cxFail("%s needs a pointer to a ConcurrentMap", n.Name)
+		}
+		mt, ok := pt.Elem().(*types.Named)
+		if !ok || mt.TypeArgs().Len() != 2 {
+			cxFail("%s: not a ConcurrentMap", n.Name)
+		}
+		K, V := mt.TypeArgs().At(0), mt.TypeArgs().At(1)
+		kd, kv := g.umapKeys(K, V)
+		k := e.expr(n.Args[1])
+		if n.Name == "cmHas" {
+			return Val{t: fmt.Sprintf("(select (select %s %s) %s)", g.get(e.state, kd), mv.t, k.t), ty: tBool}
+		}
+		return Val{t: fmt.Sprintf("(select (select %s %s) %s)", g.get(e.state, kv), mv.t, k.t), ty: V}
 	case "umHas", "umGet", "umDom", "umVals":
 		// ghost content of a core/util.Map[K,V] field: umHas(x.f, k), umGet(x.f, k), umDom(x.f), umVals(x.f)
 		if len(n.Args) < 1 || n.Args[0].Kind != "field" {
@@ -719,6 +755,18 @@ func (e *Env) call(n *CNode) Val {
 			cs = append(cs, fmt.Sprintf("(forall ((|o| Int)) (=> (<= |o| %s) (= (select %s |o|) (select %s |o|))))", g.get(e.fc.entry, "$alloc"), g.get(e.state, k), g.get(e.fc.entry, k)))
 		}
 		return Val{t: and(cs), ty: tBool}
+	case "deref":
+		// deref(p): the value stored at pointer p (captured variables of closures are pointers to the variable)
+		v := e.expr(n.Args[0])
+		pt, ok := v.ty.Underlying().(*types.Pointer)
+		if !ok {
+			cxFail("deref of non-pointer")
+		}
+		saved := e.fc.cur
+		e.fc.cur = e.state
+		t := e.fc.loadWhole(v.t, pt.Elem())
+		e.fc.cur = saved
+		return Val{t: t, ty: pt.Elem()}
 	case "local":
 		// local(x): the current value of the local variable x that lives in memory (e.g. a parameter
 		// that is re-assigned and captured by a closure), as opposed to the entry value of parameter x
